@@ -24,7 +24,7 @@ BPAIRS = [([], []), ([2], []), ([], [2]), ([2], [2]), ([3, 2], [2]), ([2], [3, 2
 
 def cases(tier, seed):
     rnd = random.Random(12000 + seed)
-    reps = 1 if tier == "quick" else 12
+    reps = 1 if tier == "quick" else 60
     for _ in range(reps):
         for kind, n, (lb, db) in itertools.product(["gauss", "fixed", "fixed+learn"], [1, 2, 5], BPAIRS):
             for call_noise in ([False] if kind == "gauss" else [False, True, "tiny"]):
